@@ -1,6 +1,6 @@
 // C14 - safe integer comparisons, in_range and saturate_cast over signed/unsigned type pairs vs std <utility> / __int128
 // (DESIGN section 4, C14).  Public tetl API only.
-//   -DC14_ROWS=0 : first parameter type signed     -DC14_ROWS=1 : first parameter type unsigned
+//   -DC14_ROWS=0..3 : first parameter type in {int8,int16} / {int32,int64} / {uint8,uint16} / {uint32,uint64}   (split for parallel compiles)
 #include "vf.hpp"
 #include "vf_contract.hpp"
 
@@ -125,24 +125,24 @@ void c14::register_all()
 #if C14_ROWS == 0
     reg_row<signed char>();
     reg_row<short>();
-    reg_row<int>();
-    reg_row<long>();
     reg_pair<long long, unsigned long long>();
     reg_pair<long long, unsigned>();
     reg_pair<long long, long>();
-#else
+#elif C14_ROWS == 1
+    reg_row<int>();
+    reg_row<long>();
+#elif C14_ROWS == 2
     reg_row<unsigned char>();
     reg_row<unsigned short>();
-    reg_row<unsigned>();
-    reg_row<unsigned long>();
     reg_pair<unsigned long long, long long>();
     reg_pair<unsigned long long, signed char>();
     reg_pair<unsigned long long, unsigned long>();
+#else
+    reg_row<unsigned>();
+    reg_row<unsigned long>();
 #endif
 }
 
-#if C14_ROWS == 0
-VF_MAIN("C14", "C14_cmp_s", spec, c14::run_case)
-#else
-VF_MAIN("C14", "C14_cmp_u", spec, c14::run_case)
-#endif
+#define C14_STR2(x) #x
+#define C14_STR(x) C14_STR2(x)
+VF_MAIN("C14", "C14_cmp_" C14_STR(C14_ROWS), spec, c14::run_case)
